@@ -38,7 +38,7 @@ fn main() {
             continue;
         }
         let mut g = Gen {
-            call_limit: 4,
+            call_limit: yverif::prog::CALLABLE,
             loop_depth: 0,
             rng: Rng::new(s),
             marker: 0,
